@@ -198,6 +198,19 @@ def make_model(name: str, seed: int, dtype: torch.dtype) -> torch.nn.Module:
             torch.nn.Linear(5, 4, bias=True), Act(),
             torch.nn.Linear(4, 2, bias=False),
         )
+    elif name == 'featcls':
+        # torchvision style: the registration order (features.0, features.2,
+        # classifier) is NOT the lexicographic order of the layer names
+        class FeatCls(torch.nn.Module):
+            def __init__(self) -> None:
+                super().__init__()
+                self.features = torch.nn.Sequential(
+                    torch.nn.Linear(3, 5), Act(), torch.nn.Linear(5, 4))
+                self.classifier = torch.nn.Linear(4, 2)
+
+            def forward(self, x):
+                return self.classifier(torch.tanh(self.features(x)))
+        m = FeatCls()
     elif name == 'wide':
         # wide enough for second-order data kept in low precision to lose
         # positive definiteness (C07: negative <V, D>)
@@ -223,12 +236,12 @@ def make_model(name: str, seed: int, dtype: torch.dtype) -> torch.nn.Module:
 
 def in_shape(name: str) -> tuple[int, ...]:
     return {'mlp3': (4,), 'mlp2': (3,), 'mlp2nb': (3,), 'conv': (2, 4, 4),
-            'mlp4': (4,), 'wide': (32,), 'conv2': (2, 5, 4), 'nd': (3, 4), 'mixb': (3,), 'eq': (4,), 'conv3': (2, 4, 4)}[name]
+            'mlp4': (4,), 'wide': (32,), 'featcls': (3,), 'conv2': (2, 5, 4), 'nd': (3, 4), 'mixb': (3,), 'eq': (4,), 'conv3': (2, 4, 4)}[name]
 
 
 def out_shape(name: str) -> tuple[int, ...]:
     return {'mlp3': (2,), 'mlp2': (3,), 'mlp2nb': (2,), 'conv': (4,),
-            'mlp4': (2,), 'wide': (8,), 'conv2': (4,), 'nd': (3, 2), 'mixb': (2,), 'eq': (4,), 'conv3': (4,)}[name]
+            'mlp4': (2,), 'wide': (8,), 'featcls': (2,), 'conv2': (4,), 'nd': (3, 2), 'mixb': (2,), 'eq': (4,), 'conv3': (4,)}[name]
 
 
 def make_batch(cfg: Config, seed: int, rank: int, it: int, mb: int,
@@ -580,11 +593,22 @@ class RankRun:
                 # resume from a checkpoint whose A factors are negative
                 # definite (public API only): with explicit inverses the
                 # preconditioner is then indefinite and <V, D> negative
+                # ['indef', c]: A := -c I;  ['indef', c, 'G', 'alt']: the
+                # named factors := c diag(+1, -1, +1, ...) (symmetric, not
+                # positive semi-definite)
                 sd = self.pre.state_dict()
+                which = op[2] if len(op) > 2 else 'A'
                 for lsd in sd['layers'].values():
-                    a = lsd['A']
-                    lsd['A'] = -float(op[1]) * torch.eye(
-                        a.shape[0], dtype=a.dtype)
+                    for f in which:
+                        a = lsd[f]
+                        if len(op) > 3 and op[3] == 'alt':
+                            sign = torch.tensor(
+                                [1.0 if i % 2 == 0 else -1.0
+                                 for i in range(a.shape[0])], dtype=a.dtype)
+                            lsd[f] = float(op[1]) * torch.diag(sign)
+                        else:
+                            lsd[f] = -float(op[1]) * torch.eye(
+                                a.shape[0], dtype=a.dtype)
                 self.pre.load_state_dict(sd)
             elif kind == 'reset':
                 self.pre.reset_batch()
